@@ -272,7 +272,7 @@ def load_enums():
         ENUMS[k] = sorted(ENUMS[k])
 
 
-def systematic(rng, bases, quick):
+def systematic(rng, bases, quick, rich_rot=0):
     """ONE change per document, enumerated rather than sampled: for every distinct member position (array indices
     generalised) of the examples, every rejected-class value and the length boundaries of its text class, and every
     value the published schemas enumerate for a member of that name.  Returns [(label, document)]."""
@@ -298,6 +298,11 @@ def systematic(rng, bases, quick):
                 ev = rng.sample(ev, 6)
             for v in ev:
                 cands.append(("enum", v))
+            if quick and name.startswith("rich:") and (sum(map(ord, "/".join(map(str, gp)))) + rich_rot) % 6 != 0:
+                continue                    # a rotating sixth of the rich positions per quick run
+            if quick and name.startswith("rich:"):
+                # the rich documents have thousands of positions: three probes per position in the quick tier
+                cands = ([cands[rng.randrange(len(cands))]] if cands else []) + [("empty", "")]
             for tag, v in cands:
                 # quick: every enumerated value once per member NAME (large enumerations sampled per position);
                 # thorough: once per member position
@@ -684,6 +689,12 @@ def judge(c, stream, items, state):
                 new.append(e)
         if not new:
             continue
+        for e in new:
+            loc = "%s:%s:%s" % (sid[len(GOBL):], "/".join("*" if x.isdigit() else x for x in e.get("at", [])), e.get("kw"))
+            ul = state.setdefault("unexplained_locations", {})
+            if loc not in ul:
+                ul[loc] = {"count": 0, "example_value": repr(e.get("value"))[:80], "label": label[:160]}
+            ul[loc]["count"] += 1
         # a failing input that no recorded finding explains
         if state["reported"] >= 3:
             state["reported"] += 1
@@ -827,13 +838,13 @@ def run(c):
         c.sample({"stream": "examples", "file": name, "schema": (doc_of(env) or {}).get("$schema")}, limit=2)
 
     g = cg.Gen(c.rng)
-    ngen = 700 if quick else 60000
+    ngen = 400 if quick else 60000
     gen = [("generated:%d" % i, g.doc(big=(i % 40 == 0))) for i in range(ngen)]
     for i in range(0, len(gen), 10000):
         judge(c, "generated", gen[i:i + 10000], state)
     c.sample({"stream": "generated", "document": gen[0][1]}, limit=3)
 
-    nmut = 2300 if quick else 140000
+    nmut = 1500 if quick else 140000
     stats = {}
     bases = []
     for name, env in ex:
@@ -865,7 +876,7 @@ def run(c):
     for i in range(0, len(muts), 10000):
         judge(c, "mutations", muts[i:i + 10000], state)
     # systematic single changes: Go first; only what the library ACCEPTS needs the schema's verdict
-    sysi = systematic(c.rng, [(n, b) for n, b in bases if not (quick and n.endswith("#doc"))], quick)
+    sysi = systematic(c.rng, [(n, b) for n, b in bases if not (quick and n.endswith("#doc"))] + [(n, d) for n, d in ritems if not quick or ["bill-invoice", "bill-order", "bill-delivery.", "bill-payment."][c.seed % 4] in n], quick, rich_rot=c.seed // 4)
     acc_items = []
     for i in range(0, len(sysi), 20000):
         chunk = sysi[i:i + 20000]
@@ -886,6 +897,7 @@ def run(c):
     c.cov["validator_disagreements"] = state["disagree"]
     c.cov["python_year_0000_divergence(not compared)"] = state.get("python_year0", 0)
     c.cov["known_finding_locations"] = state["finding_locations"]
+    c.cov["unexplained_locations"] = state.get("unexplained_locations", {})
     c.cov["failing_inputs_not_explained_by_a_recorded_finding"] = state["reported"]
     c.cov["rule"] = ("schema files: all files under data/schemas (exhaustive); documents: every example output under */out (envelope and bare document), invoices generated "
                      "from the seed (calcgen), and 1-3 field-level mutations of the examples (dates, amounts, percentages, keys, values the schema enumerates for the member, codes, uuids, currency and country codes, "
